@@ -277,11 +277,17 @@ where
 }
 
 pub struct MutexIsh<T> {
+    #[cfg(not(unimock_verif))]
     #[cfg(feature = "std")]
     inner: ::std::sync::Mutex<T>,
+    #[cfg(all(unimock_verif, feature = "std"))]
+    inner: crate::verif::StdMutex<T>,
 
+    #[cfg(not(unimock_verif))]
     #[cfg(all(feature = "spin-lock", not(feature = "std")))]
     inner: ::spin::Mutex<T>,
+    #[cfg(all(unimock_verif, feature = "spin-lock", not(feature = "std")))]
+    inner: crate::verif::SpinMutex<T>,
 
     #[cfg(not(any(feature = "std", feature = "spin-lock")))]
     inner: core::cell::RefCell<T>,
@@ -291,16 +297,15 @@ pub struct MutexIsh<T> {
 impl<T> MutexIsh<T> {
     pub fn new(value: T) -> Self {
         Self {
+            #[cfg(not(unimock_verif))]
             inner: ::std::sync::Mutex::new(value),
+            #[cfg(unimock_verif)]
+            inner: crate::verif::StdMutex::new(value),
         }
     }
 
     pub fn locked<U>(&self, func: impl FnOnce(&mut T) -> U) -> U {
-        #[cfg(unimock_verif)]
-        let _verif_scope = crate::verif::LockScope::enter(self as *const Self as usize);
         let mut lock = self.inner.lock().unwrap();
-        #[cfg(unimock_verif)]
-        crate::verif::yield_point(crate::verif::Op::LockHeld, self as *const Self as usize);
         func(&mut *lock)
     }
 }
@@ -309,16 +314,15 @@ impl<T> MutexIsh<T> {
 impl<T> MutexIsh<T> {
     pub fn new(value: T) -> Self {
         Self {
+            #[cfg(not(unimock_verif))]
             inner: ::spin::Mutex::new(value),
+            #[cfg(unimock_verif)]
+            inner: crate::verif::SpinMutex::new(value),
         }
     }
 
     pub fn locked<U>(&self, func: impl FnOnce(&mut T) -> U) -> U {
-        #[cfg(unimock_verif)]
-        let _verif_scope = crate::verif::LockScope::enter(self as *const Self as usize);
         let mut lock = self.inner.lock();
-        #[cfg(unimock_verif)]
-        crate::verif::yield_point(crate::verif::Op::LockHeld, self as *const Self as usize);
         func(&mut *lock)
     }
 }
